@@ -5,6 +5,7 @@
 # which of them raise a VIOLATION. Nothing is written to /repo; evidence of these runs goes to a scratch dir.
 set -u
 export GOFLAGS=-mod=mod GOPROXY=off GOSUMDB=off GOTOOLCHAIN=local
+VH="$(cd "$(dirname "$0")/.." && pwd)"
 M="$(cd "$1" && pwd)"; shift
 W="$(mktemp -d /var/tmp/seedwt.XXXXXX)"; OUT="$(mktemp -d /var/tmp/seedout.XXXXXX)"
 cleanup() { git -C /repo worktree remove --force "$W" >/dev/null 2>&1; rm -rf "$W" "$OUT"; }
@@ -30,7 +31,7 @@ echo "RESULT suite=$suite demo_with_change=$demo_with demo_without_change=$demo_
 [ "$suite" = FAIL ] && tail -20 "$OUT/suite.log"
 [ "$demo_with" = UNEXPECTED-PASS ] && tail -5 "$OUT/demo_with.log"
 [ "$demo_without" = UNEXPECTED-FAIL ] && tail -20 "$OUT/demo_without.log"
-cd /verif
+cd "$VH"
 for c in "$@"; do
   VERIF_TREE="$W" VERIF_OUT_DIR="$OUT" ./check "$c" quick > "$OUT/check-$c.log" 2>&1; rc=$?
   echo "CHECK $c exit=$rc $(grep -c '^VIOLATION' "$OUT/check-$c.log") violation line(s)"
